@@ -555,3 +555,103 @@ func init() {
 			return obs
 		}})
 }
+
+func init() {
+	register(&Rule{ID: "NAT.assert-guarded", Floor: 3,
+		Doc: "a single-value type assertion on an LVal's Native payload (x.Native.(T), which panics on a mismatch) occurs only inside the partial accessors whose callers ACC.domain checks, or on a path that established x's LType first (an edge entailing x.Type == <some type>): a lisp value of the wrong kind reaches it as an ordinary error, not as a Go panic",
+		Run: func(c *Ctx) []Obligation {
+			nativeFld := c.LookupField("lisp.LVal.Native")
+			typeFld := c.LookupField("lisp.LVal.Type")
+			if nativeFld == nil || typeFld == nil {
+				return []Obligation{anchorMissing("NAT.assert-guarded", "LVal.Native / LVal.Type")}
+			}
+			var obs []Obligation
+			for _, u := range c.Funcs(isKernel) {
+				info := u.Pkg.TypesInfo
+				ord := &ordinal{}
+				// assertions used in a comma-ok assignment or a type switch are safe by form
+				okForm := map[*ast.TypeAssertExpr]bool{}
+				ast.Inspect(u.Decl.Body, func(n ast.Node) bool {
+					switch x := n.(type) {
+					case *ast.AssignStmt:
+						if len(x.Lhs) == 2 && len(x.Rhs) == 1 {
+							if ta, ok := ast.Unparen(x.Rhs[0]).(*ast.TypeAssertExpr); ok {
+								okForm[ta] = true
+							}
+						}
+					case *ast.ValueSpec:
+						if len(x.Names) == 2 && len(x.Values) == 1 {
+							if ta, ok := ast.Unparen(x.Values[0]).(*ast.TypeAssertExpr); ok {
+								okForm[ta] = true
+							}
+						}
+					case *ast.TypeSwitchStmt:
+						ast.Inspect(x.Assign, func(m ast.Node) bool {
+							if ta, ok := m.(*ast.TypeAssertExpr); ok {
+								okForm[ta] = true
+							}
+							return true
+						})
+					}
+					return true
+				})
+				var fc *FCFG
+				ast.Inspect(u.Decl.Body, func(n ast.Node) bool {
+					ta, ok := n.(*ast.TypeAssertExpr)
+					if !ok || ta.Type == nil || okForm[ta] {
+						return true
+					}
+					se, ok := ast.Unparen(ta.X).(*ast.SelectorExpr)
+					if !ok || FieldOfSelector(info, se) != nativeFld {
+						return true
+					}
+					construct := ord.next("Native.(" + types.ExprString(ta.Type) + ")")
+					if _, isAcc := baseAccessors[u.Name()]; isAcc {
+						obs = append(obs, mkOb(c, "NAT.assert-guarded", u, construct, ta, Proved, "inside a partial accessor: every caller is checked by ACC.domain", false))
+						return true
+					}
+					if fc == nil {
+						fc = c.cfgOf(u, nil)
+					}
+					owner := types.ExprString(se.X)
+					cls := func(e ast.Expr) (string, bool) {
+						be, ok := ast.Unparen(e).(*ast.BinaryExpr)
+						if !ok || (be.Op != token.EQL && be.Op != token.NEQ) || FieldOfSelector(info, be.X) != typeFld {
+							return "", false
+						}
+						if xs, ok := ast.Unparen(be.X).(*ast.SelectorExpr); !ok || types.ExprString(xs.X) != owner {
+							return "", false
+						}
+						return "typed", be.Op == token.NEQ
+					}
+					cut := fc.edgesEntailing(cls, func(v map[string]bool) bool { return v["$has:typed"] && v["typed"] })
+					loc, lok := fc.Locate(ta)
+					inCase := false
+					// or inside `case <const>` of a switch on owner.Type
+					ast.Inspect(u.Decl.Body, func(m ast.Node) bool {
+						sw, ok := m.(*ast.SwitchStmt)
+						if !ok || sw.Tag == nil || FieldOfSelector(info, sw.Tag) != typeFld {
+							return true
+						}
+						if xs, ok := ast.Unparen(sw.Tag).(*ast.SelectorExpr); !ok || types.ExprString(xs.X) != owner {
+							return true
+						}
+						for _, cl := range sw.Body.List {
+							cc := cl.(*ast.CaseClause)
+							if cc.List != nil && cc.Pos() <= ta.Pos() && ta.End() <= cc.End() {
+								inCase = true
+							}
+						}
+						return true
+					})
+					if inCase || (lok && len(cut) > 0 && !fc.reachableAvoiding(loc.B, cut)) {
+						obs = append(obs, mkOb(c, "NAT.assert-guarded", u, construct, ta, Proved, "reached only after `"+owner+".Type == ...` was established", true))
+					} else {
+						obs = append(obs, mkOb(c, "NAT.assert-guarded", u, construct, ta, Undecided, "`"+types.ExprString(ta)+"` panics if the payload is of another Go type, and no test of `"+owner+".Type` dominates it", true))
+					}
+					return true
+				})
+			}
+			return obs
+		}})
+}
